@@ -206,9 +206,10 @@ CHECKS = {
               "Both are serialisers with the derived picture size, ChromaArrayType and escaped header length; TLC enumerates base vectors with every field varied "
               "over its boundary set (pairwise in the thorough tier), id assignments with pps id != sps id and all slice / NAL types, checks the oracle's NAL units "
               "are emulation free, and exports them; the real parsers, configuration-record and codec-string builders and the sample-entry builder are compared "
-              "field by field."),
+              "field by field. AVC slice groups (map types 0-6, slice_group_change_cycle) are generated with fixed inner values; the built mp4ff-pslister is given "
+              "the (SPS, PPS) pairs in hex and must print them."),
         note=("Trusted: TLC, the transcriptions of the two standards (checked for emulation-freeness and positive sizes; every vector must be accepted by the real "
-              "parser or is reported), Go replayers. AVC slice groups and explicit prediction weights, HEVC multilayer/3D/SCC extensions and the VPS are not generated."),
+              "parser or is reported), Go replayers. AVC explicit prediction weights, HEVC multilayer/3D/SCC extensions and the VPS are not generated."),
         technique="TLA+ syntax specs as independent serialisers + TLC enumeration of value vectors, behaviour replay into real parsers",
         design_ref="DESIGN.md section 5 C15",
     ),
@@ -237,7 +238,8 @@ CHECKS = {
               "against several SPS contexts, SEI extraction and all decoders with String/Payload/Size, ADTS/ASC, avcC/hvcC/av1C/esds) "
               "in an isolated worker under recover(), a 6 s watchdog and ulimit -v; crashes are attributed through a progress file; "
               "TLC validates every recorded outcome. H6: NAL sequences that bring their own context (SPS, PPS, then slice / SEI) with "
-              "count and range bombs in the parameter sets. The built mp4ff-nallister / mp4ff-pslister binaries run on Annex B streams "
+              "count and range bombs in the parameter sets; H7: Exp-Golomb codes 2^32-1 .. 2^64-2 inserted at every bit position of the SPS and PPS of "
+              "spec-serialised (SPS, PPS, slice) triples and of pic_timing payloads under sub-picture HRD. The built mp4ff-nallister / mp4ff-pslister binaries run on Annex B streams "
               "chosen by structural signature from all generated windows and on media segments without moov with every spelling of -c; "
               "a Go panic or no return within 20 s is a violation."),
         note=("The decisive observation is the runtime monitor on the real code; TLC supplies the H1 grammar and the bases and "
